@@ -14,7 +14,7 @@ import (
 // C16 — nothing follows a Close frame: no data frames, no second Close frame.
 
 func init() {
-	register(&Prop{ID: "C16", Run: runC16, Quick: 20000, Thorough: 150000, Level: "exploration"})
+	register(&Prop{ID: "C16", Run: runC16, Quick: 20000, Thorough: 1500000, Level: "exploration"})
 }
 
 var c16Triggers = []string{"local-close", "peer-close", "peer-violation", "read-limit", "closeread-data", "netconn-wrong-type", "wsjson-bad-json"}
